@@ -115,9 +115,9 @@ func opSupports(fam, op string, d DT) bool {
 			return d.IsSigned() || d.IsFloat()
 		case "Clamp":
 			return d.IsInt() || d.IsFloat()
-		case "Sqrt", "Exp", "Log", "Tanh", "InvSqrt", "Log10":
+		case "Sqrt", "Exp", "Log", "Tanh", "Log10":
 			return d.IsFloat() || d.IsComplex()
-		case "Cbrt", "Log2":
+		case "Cbrt", "Log2", "InvSqrt":
 			return d.IsFloat()
 		}
 	}
@@ -248,6 +248,16 @@ func (c *EWCase) Run() string {
 			if !ok {
 				panic(fmt.Sprintf("HARNESS: model has no %s.%s for %s although the type class says supported", c.Fam, c.Op, d.Name))
 			}
+			if (d.Name == "float32" || d.Name == "complex64") && ((c.Fam == "arith" && opInexact(c.Op, d)) || (c.Fam == "unary" && unopInexact(c.Op, d))) {
+				// third-party 32-bit maths routines: awkward arguments (non-finite, subnormal) are not asserted
+				other := sc
+				if c.Form == "TT" {
+					other = B.arr.E[k]
+				}
+				if awkward32(A.arr.E[k]) || (other != nil && awkward32(other)) {
+					v = undef
+				}
+			}
 			if c.Op == "MinBetween" || c.Op == "MaxBetween" {
 				// the minimum/maximum of a NaN and a number depends on how it is written; not asserted
 				other := sc
@@ -347,6 +357,29 @@ func (c *EWCase) Run() string {
 			rec.Class("int-div-by-zero-error")
 			return "" // integer division by zero: an error and/or any value is accepted there
 		}
+		if dest != nil && dest != Dst && dest.b.HasGaps() {
+			rec.Class("refused:destination-with-gaps")
+			if m := A.unchanged("operand a"); m != "" {
+				return desc + ": refused, but " + m
+			}
+			if B != nil {
+				if m := B.unchanged("operand b"); m != "" {
+					return desc + ": refused, but " + m
+				}
+			}
+			return ""
+		}
+		if Dst != nil && Dst.b.HasGaps() {
+			// a destination whose storage window has gaps is refused by the library: a loud refusal, counted
+			rec.Class("refused:destination-with-gaps")
+			if m := A.unchanged("operand a"); m != "" {
+				return desc + ": refused, but " + m
+			}
+			if m := Dst.unchanged("destination"); m != "" {
+				return desc + ": refused, but " + m
+			}
+			return ""
+		}
 		return desc + ": refused a valid call: " + lerr.Error()
 	}
 	rd, ok := res.(*tensor.Dense)
@@ -383,6 +416,24 @@ func (c *EWCase) Run() string {
 	}
 	if inexact {
 		eq = func(a, b interface{}) bool { return closeVal(a, b, 16) }
+	}
+	if inexact && c.Mode == "incr" {
+		// old + f(x) may cancel: the error bound is relative to the addends, not to the sum
+		scale := 0.0
+		for k := range exp {
+			if !isUndef(exp[k]) {
+				scale = maxF(scale, magnitude(exp[k]))
+			}
+			scale = maxF(scale, magnitude(Dst.arr.E[k]))
+		}
+		eps := 2.3e-16
+		if d.Name == "float32" || d.Name == "complex64" {
+			eps = 1.2e-7
+		}
+		base := eq
+		eq = func(a, b interface{}) bool {
+			return base(a, b) || (finiteVal(a) && finiteVal(b) && magnitude(subVal(a, b)) <= 32*eps*scale)
+		}
 	}
 	if inexact && (d.Name == "float32" || d.Name == "complex64") {
 		// the 32-bit routines are third-party ports (math32): their handling of
@@ -578,4 +629,66 @@ func avoidF39(c *EWCase) {
 	case "ST":
 		fix(c.A.Codes)
 	}
+}
+
+func awkward32(v interface{}) bool {
+	switch x := v.(type) {
+	case float32:
+		a := x
+		if a < 0 {
+			a = -a
+		}
+		return !finiteVal(x) || (a != 0 && a < 1.2e-38) || a > 1e37
+	case complex64:
+		return awkward32(real(x)) || awkward32(imag(x))
+	}
+	return false
+}
+
+func maxF(a, b float64) float64 {
+	if a > b {
+		return a
+	}
+	return b
+}
+
+func magnitude(v interface{}) float64 {
+	switch x := v.(type) {
+	case complex64:
+		return cabs(complex128(x))
+	case complex128:
+		return cabs(x)
+	case float32, float64:
+		f := toF64(v)
+		if f < 0 {
+			return -f
+		}
+		return f
+	}
+	return 0
+}
+
+func cabs(x complex128) float64 {
+	r, i := real(x), imag(x)
+	if r < 0 {
+		r = -r
+	}
+	if i < 0 {
+		i = -i
+	}
+	return r + i
+}
+
+func subVal(a, b interface{}) interface{} {
+	switch x := a.(type) {
+	case float32:
+		return x - b.(float32)
+	case float64:
+		return x - b.(float64)
+	case complex64:
+		return x - b.(complex64)
+	case complex128:
+		return x - b.(complex128)
+	}
+	return a
 }
